@@ -782,8 +782,18 @@ where
                     && (self_buf.data_ptr() == other_buf.data_ptr())
                     && other.aux() == self.aux() + self.raw_len()
                 {
-                    self.set_len(new_len);
-                    return;
+                    // Zero-copy only if the format has nothing to repair where the two meet
+                    // (WTF-8 joins a lead surrogate with a following trail surrogate).
+                    let Fixup {
+                        drop_left,
+                        drop_right,
+                        insert_len,
+                        ..
+                    } = F::fixup(self.as_byte_slice(), other.as_byte_slice());
+                    if drop_left == 0 && drop_right == 0 && insert_len == 0 {
+                        self.set_len(new_len);
+                        return;
+                    }
                 }
             }
 
